@@ -33,6 +33,24 @@ theorem wait_bounded (c : Cfg) (w : Wait) (T : Nat) (h : limit c w.scope = some 
   rcases runWait_scoped c w T h with ⟨n, hr, hle, _⟩ | hr <;> simp [hr]
   exact hle
 
+theorem need_replicate (g k : Nat) : need (List.replicate k (some g)) = some (k * g) := by
+  induction k with
+  | zero => simp [need]
+  | succ n ih => simp [List.replicate_succ, need, ih, Nat.succ_mul, Nat.add_comm]
+
+/-- **Steady is not enough**: a peer that delivers everything the step needs, each piece well within the limit (`g ≤ T`), but
+    takes longer than the limit in all (`k * g > T`), is cut at the limit — the step does not complete, however small `g` is. (The
+    correspondence runs exactly this: a command / a message in pieces a third / a quarter of the timeout apart, twice the timeout
+    in all.) -/
+theorem steady_but_slow_is_cut (c : Cfg) (s : Scope) (T g k : Nat) (h : limit c s = some T) (hslow : T < k * g) :
+    runWait c { scope := s, gaps := List.replicate k (some g) } = .timedOut T := by
+  unfold runWait
+  simp only [h, need_replicate]
+  simp [Nat.not_le.mpr hslow]
+
+example : runWait { command := 80, data := 200, connect := 80, single := 80 } { scope := .data, gaps := List.replicate 8 (some 50) }
+    = .timedOut 200 := by decide
+
 def allScoped (ws : List Wait) : Prop := ∀ w ∈ ws, w.scope ≠ .unscoped
 
 theorem limit_of_scoped (c : Cfg) (s : Scope) (h : s ≠ .unscoped) : ∃ T, limit c s = some T := by
